@@ -414,6 +414,11 @@ def _guarantee_call(parent, context, resolve=True, node=None):
     to call. The focus and capture name are removed, if there are any.
     """
     if isinstance(parent, Element):
+        if 2 in parent.tags:
+            msg = "A function cannot carry the second focus (!!)"
+            if node is None:
+                raise SyntaxError(msg)
+            raise node.location.syntax_error(msg)
         name = VSymbol(parent.name) if parent.name and resolve else parent.name
         parent = parent.clone(capture=None, name=name).without_focus()
         parent = Call(element=parent, captures=(), immediate=False)
